@@ -112,14 +112,47 @@ def rand_update(r, ids_pool):
     return feats
 
 
+def big_update(r, ids_pool, n, tag):
+    """n features with new ids '<tag><j>' (a few without ID: auto-generated keys), parents from the pool / earlier ones"""
+    feats = []
+    for j in range(n):
+        fid = None if r.random() < 0.15 else "%s%d" % (tag, j)
+        earlier = [f[0] for f in feats if f[0] is not None]
+        parents = r.sample(ids_pool + earlier[-2:], r.choice([0, 1, 1, 2]))
+        feats.append((fid, parents, r.choice(["exon", "mRNA"]), r.randrange(1, 900)))
+    return feats
+
+
+MOVE_STARTS = [5, 70000, 2 ** 17 - 25, 2 ** 17 + 1, 2 ** 18 + 5, 2 ** 20 - 10, 500000, 3 * 2 ** 17 - 51]
+
+
+def rand_move(r, ids):
+    ns = r.choice(MOVE_STARTS + [r.randrange(1, 900)])
+    return ("move", r.choice(ids), ns, ns + r.choice([50, 50, 10, 0, 2 ** 17, 200000]))
+
+
 BASE_LINES = [feat_line("a", []), feat_line("b", ["a"]), feat_line("c", ["b"]), feat_line("d", ["c"])]
 BASE_FEATS = [("a", [], "exon", 10), ("b", ["a"], "exon", 10), ("c", ["b"], "exon", 10), ("d", ["c"], "exon", 10)]
 BACKUP_LINES = [feat_line("e", ["d"]), feat_line(None, ["a"]), feat_line("f", ["e"])]
 
 
+UPDATE_FORMS = ["path", "list", "generator", "iter", "map"]
+
+
+def _same(f):
+    return f
+
+
+def as_form(form, objs):
+    """the Feature objects of an update as a list / generator / iter(list) / map object"""
+    return {"list": list(objs), "generator": (f for f in objs), "iter": iter(objs), "map": map(_same, objs)}[form]
+
+
 def jsonable_history(hist):
-    """steps as JSON lists: ["update", [[id|null, [parents], featuretype, start], ...], strategy] | ["delete", [ids]] |
-    ["addrel", parent, child, level] | ["reopen"]"""
+    """steps as JSON lists: ["update", [[id|null, [parents], featuretype, start], ...], strategy(, form)] (form: how the
+    features reach update(): "path" = a file (default), or Feature objects as "list" / "generator" / "iter" / "map") |
+    ["delete", [ids]] | ["addrel", parent, child, level] | ["reopen"] | ["move", id, start, end] (db[id] is fetched, its
+    start/end changed, and written back with update([feature], merge_strategy="replace"))"""
     return [[list(x) if isinstance(x, tuple) else ([list(f) for f in x] if i == 1 and s[0] == "update" else x)
              for i, x in enumerate(s)] for s in hist]
 
@@ -128,6 +161,7 @@ def play(ctx, name, hist, res, cmds, exp, tags):
     """one history on a fresh file database built from BASE_LINES, step by step against the reference; the
     correspondence commands of the steps are appended to cmds/exp/tags.  returns the number of state-changing steps"""
     import gffutils
+    from gffutils.feature import feature_from_line
     cfg0 = dbside.Cfg()
     # a fresh file name per history: a failed update of an earlier history may leave a rollback journal next to
     # its database file, which sqlite would apply to a new database created under the same name
@@ -148,7 +182,9 @@ def play(ctx, name, hist, res, cmds, exp, tags):
         case = {"scenario": "history", "base": BASE_LINES, "input": jsonable_history(hist[: si + 1]),
                 "config": cfg0.to_json()}
         if step[0] == "update":
-            _, feats, strategy = step
+            feats, strategy = step[1], step[2]
+            form = step[3] if len(step) > 3 else "path"
+            res.count("update_form_%s_%s" % (form, "0" if not feats else "1-11" if len(feats) <= 11 else "12+"))
             lines = [feat_line(fid, parents, ftype, start) for fid, parents, ftype, start in feats]
             upath = dbside.write_lines(os.path.join(ctx.scratch, "u.gff3"), lines)
             cfg = dbside.Cfg(strategy=strategy)
@@ -157,7 +193,10 @@ def play(ctx, name, hist, res, cmds, exp, tags):
             try:
                 with warnings.catch_warnings():
                     warnings.simplefilter("ignore")
-                    if lines:
+                    if form != "path":
+                        db.update(as_form(form, [feature_from_line(l) for l in lines]), make_backup=False,
+                                  **cfg.update_kwargs())
+                    elif lines:
                         db.update(upath, make_backup=False, **cfg.update_kwargs())
                     else:
                         db.update(iter([]), make_backup=False, **cfg.update_kwargs())
@@ -218,6 +257,52 @@ def play(ctx, name, hist, res, cmds, exp, tags):
                 common.fail(res, case, "add_relation_outcome", "add_relation outcome %s, reference %s" % (got, want),
                             observed=got, expected=want)
             changing += 1 if got == "ok" else 0
+        elif step[0] == "move":
+            # a feature fetched from the database, moved, and written back with merge_strategy="replace"
+            _, mid, ns, ne = step
+            try:
+                f = db[mid]
+            except gffutils.FeatureNotFoundError:
+                f = None
+            if f is not None:
+                f.start, f.end = ns, ne
+                line = str(f)
+                fid = f.attributes["ID"][0] if "ID" in f.attributes else None       # no ID: stored as a new feature
+                parents = list(f.attributes["Parent"]) if "Parent" in f.attributes else []
+                ref.update([(fid, parents, f.featuretype, ns)], "replace")
+                key = fid if fid is not None else "%s_%d" % (f.featuretype, ref.counters[f.featuretype])
+                cfg = dbside.Cfg(strategy="replace")
+                try:
+                    with warnings.catch_warnings():
+                        warnings.simplefilter("ignore")
+                        db.update([f], make_backup=False, **cfg.update_kwargs())
+                    got = "ok"
+                except Exception as ex:
+                    got = "err " + dbside.err_name(ex)
+                    inp["exception"] = repr(ex)
+                cmds.append(dbside.cmd_update([line], cfg)); exp.append(got); tags.append(("update (moved feature, replace)", repr(inp)))
+                if got != "ok":
+                    common.fail(res, case, "update_raised", "writing a moved feature back with merge_strategy='replace' "
+                                "raised (%s)" % got, error=got, observed=inp["exception"], expected="ok", update_lines=[line])
+                    alive = False
+                    break
+                # the stored row is the row a fresh import of the same feature line stores (coordinates and bin included)
+                with warnings.catch_warnings():
+                    warnings.simplefilter("ignore")
+                    fresh = dbside.rows_of(gffutils.create_db(dbside.write_lines(os.path.join(ctx.scratch, "mv.gff3"), [line]),
+                                                              ":memory:", verbose=False))[0]
+                stored = [x for x in dbside.rows_of(db) if str(x["id"]) == key]
+                cols = ["seqid", "source", "featuretype", "start", "end", "score", "strand", "frame", "attributes", "extra", "bin"]
+                if len(stored) != 1 or [stored[0][k] for k in cols] != [fresh[k] for k in cols]:
+                    common.fail(res, case, "moved_feature_row_differs",
+                                "a feature fetched, moved and written back with merge_strategy='replace' is not stored like "
+                                "the same feature imported afresh (columns, attributes, bin)", id=key, line=line,
+                                observed=[[x[k] for k in cols] for x in stored], expected=[fresh[k] for k in cols])
+                    cmds.append("dump"); exp.append(dbside.dump(db)); tags.append(("tables after step", repr(inp)))
+                    alive = False
+                    break
+                res.count("move_" + ("across_bin" if fresh["bin"] != f.bin else "within_bin"))
+                changing += 1
         else:
             db.conn.commit()
             db = gffutils.FeatureDB(dbfn)
@@ -315,8 +400,8 @@ def judge_clean_update(res, sub, out, lines, feats, feats_now, rel_now, new_feat
     explicit = [f[0] for f in feats if f[0] is not None]
     if out != "ok":
         common.fail(res, sub, "update_raised_in_faulty_history",
-                    "an update whose ids are all new (or auto-generated) raised %s after an earlier update of the "
-                    "history had failed part-way" % out, error=out, observed=out, expected="ok", update_lines=lines,
+                    "an update whose ids are all new (or auto-generated) raised %s (the history up to it: the import, "
+                    "successful updates, updates that failed part-way)" % out, error=out, observed=out, expected="ok", update_lines=lines,
                     database_ids=sorted(feats_now))
         return False
     problems = {}
@@ -354,6 +439,72 @@ def judge_clean_update(res, sub, out, lines, feats, feats_now, rel_now, new_feat
     return True
 
 
+def render(fmt, feat):
+    """the line of one update feature (id|None, parents, featuretype, start): GFF3 with ID / Parent, or - for the GTF
+    databases (parents must be empty there) - a GTF line with a gene_id (and transcript_id) of its own and an `ID "..."`
+    attribute when it has an id (the GTF cases run under an id_spec that reads ID)"""
+    fid, parents, ftype, start = feat
+    if fmt != "gtf":
+        return feat_line(fid, parents, ftype, start)
+    attrs = [("gene_id", ["gu%d" % start])] + ([] if ftype == "gene" else [("transcript_id", ["tu%d" % start])]) + \
+        ([("ID", [fid])] if fid else [])
+    return gen_db.gtf_line("chr1", ftype, start, start + 50, "+", attrs)
+
+
+class MemWorld:
+    """the steps of worldside.RealWorld on a ':memory:' database: ONE sqlite connection shared by the FeatureDB and by
+    the importer of every update (what a failed update wrote stays visible on it); "reopen" is FeatureDB(connection),
+    which reads the counters table again.  Oracle only (the World model is about database files)."""
+
+    def __init__(self, scratch):
+        self.scratch = scratch
+        os.makedirs(scratch, exist_ok=True)
+        self.db = None
+        self._n = 0
+
+    def _input(self, lines):
+        self._n += 1
+        return dbside.write_lines(os.path.join(self.scratch, "in%d.txt" % self._n), lines)
+
+    def create(self, name, lines, cfg, force, checklines=10):
+        self.db, rep = dbside.py_create(self._input(lines), cfg, dbfn=":memory:", checklines=checklines)
+        return rep
+
+    def connect(self, name):
+        return "ok"
+
+    def update(self, lines, cfg, backup, fail_at=None, checklines=10):
+        import gffutils
+        path = self._input(lines)
+
+        def source():
+            for i, f in enumerate(gffutils.iterators.DataIterator(path, checklines=checklines)):
+                if i == fail_at:
+                    raise worldside.SourceBroke("feature source failed at %d" % i)
+                yield f
+            raise worldside.SourceBroke("feature source failed at the end")
+        data = source() if fail_at is not None else path if lines else iter([])
+        try:
+            with warnings.catch_warnings():
+                warnings.simplefilter("ignore")
+                self.db.update(data, make_backup=backup, checklines=checklines, **cfg.update_kwargs())
+            return "ok"
+        except Exception as ex:
+            return "err:" + dbside.err_name(ex)
+
+    def delete(self, ids, backup):
+        self.db.delete(list(ids), make_backup=backup)
+
+    def reopen(self):
+        import gffutils
+        self.db.conn.commit()
+        self.db = gffutils.FeatureDB(self.db.conn)
+
+    def finish(self):
+        self.db = None
+        gc.collect()
+
+
 def play_faulty(ctx, case, res, scripts=None):
     """one history whose updates may FAIL part-way, on a fresh file database, on ONE handle (and after reopening).
     steps (JSON lists): ["update", [[id|null, [parents], featuretype, start], ...], strategy, fail_at|null, checklines,
@@ -363,15 +514,27 @@ def play_faulty(ctx, case, res, scripts=None):
     prescribes an outcome for - every explicit id new relative to the ACTUAL content, source not failing - succeeds and
     adds exactly its features to the actual content; each of its auto-generated keys is one that was never in the
     database before and continues the numbering of its base; delete removes exactly the named features; an update with
-    a duplicate id under merge_strategy='error' raises.  Reopening directly after a failed update that left rows
-    behind reads counters the failed update never stored: from there on nothing is judged (counted as observation).
+    a duplicate id under merge_strategy='error' raises.  An update with a multi-valued ID (a feature id containing
+    ',') is expected to be rejected by the importer and is not judged itself (C04).
+    case["fmt"] = "gtf": the base is a GTF file (inference on, under case["config"]'s id_spec), the update lines are GTF
+    (see `render`) and every update runs with case["update_config"] (same id_spec, inference off).
+    case["dbfn"] = "memory": a ':memory:' database (MemWorld; no World correspondence).  There, "reopen" directly after a
+    failed update that left rows behind reads a counters table the failed importer never wrote (nothing was committed
+    together with counters): from there on nothing is judged (counted as observation).
     `scripts`: list collecting (RealWorld, description) for the World correspondence"""
     FAULTY[0] += 1
     root = os.path.join(ctx.scratch, "faulty%d" % FAULTY[0])
-    rw = worldside.RealWorld(os.path.join(root, "w"), os.path.join(root, "in"))
+    memory = case.get("dbfn") == "memory"
+    fmt = case.get("fmt", "gff3")
+    rw = MemWorld(os.path.join(root, "in")) if memory else worldside.RealWorld(os.path.join(root, "w"), os.path.join(root, "in"))
     cfg0 = dbside.Cfg.from_json(case["config"])
+    ucfg = case.get("update_config") or dbside.Cfg().to_json()
     rw.create("main.db", case["base"], cfg0, True)
     rw.connect("main.db")
+    if rw.db is None:
+        return 0
+    res.count("faulty_base_%s_%s_%s" % (fmt, "memory" if memory else "file",
+                                        "counters_empty" if not rw.db._autoincrements else "counters_not_empty"))
     feats_now, rel_now = observe(rw.db)
     seen = set(feats_now)
     tainted, judged, changing = False, True, 0
@@ -381,11 +544,15 @@ def play_faulty(ctx, case, res, scripts=None):
         if step[0] == "update":
             _, feats, strategy, fail_at, cl, backup = step
             feats = [tuple(f) for f in feats]
-            lines = [feat_line(fid, parents, ftype, start) for fid, parents, ftype, start in feats]
+            lines = [render(fmt, f) for f in feats]
             explicit = [f[0] for f in feats if f[0] is not None]
-            clean = fail_at is None and len(set(explicit)) == len(explicit) and not (set(explicit) & set(feats_now))
-            res.count("faulty_update_" + ("clean" if clean else "source_fails" if fail_at is not None else "id_clash"))
-            out = rw.update(lines, dbside.Cfg(strategy=strategy), bool(backup), fail_at=fail_at, checklines=cl)
+            multi = any("," in e for e in explicit)
+            dup = len(set(explicit)) != len(explicit) or bool(set(explicit) & set(feats_now))
+            clean = fail_at is None and not dup and not multi
+            res.count("faulty_update_" + ("clean" if clean else "source_fails" if fail_at is not None else
+                                          "multi_valued_id" if multi else "id_clash"))
+            out = rw.update(lines, dbside.Cfg.from_json(dict(ucfg, strategy=strategy)), bool(backup), fail_at=fail_at,
+                            checklines=cl)
             new_feats, new_rel = observe(rw.db)
             if not judged:
                 if clean and (out != "ok" or (set(new_feats) - set(feats_now)) & seen):
@@ -399,7 +566,7 @@ def play_faulty(ctx, case, res, scripts=None):
                 changing += 1 if feats else 0
                 if feats:
                     tainted = False        # _finalize stored the live counters
-            elif out == "ok" and strategy == "error":
+            elif out == "ok" and strategy == "error" and dup:
                 common.fail(res, sub, "update_duplicate_not_failed",
                             "update with a duplicate key did not fail under merge_strategy='error'",
                             observed=out, expected="an exception", update_lines=lines)
@@ -426,9 +593,11 @@ def play_faulty(ctx, case, res, scripts=None):
                 # the rows a failed update left behind were committed; the keys it handed out for them must not be handed
                 # out again after reopening either ("never equal a key handed out earlier", "across ... reopenings")
                 res.count("reopen_directly_after_partly_committed_failed_update")
+                if memory:
+                    judged = False
             rw.reopen()
     rw.finish()
-    if scripts is not None:
+    if scripts is not None and not memory:
         scripts.append((rw, repr(case["input"])))
     return changing
 
@@ -513,6 +682,53 @@ def faulty_histories(r, n):
     return out
 
 
+MULTI = ("g2,g3", [], "gene", 9)         # an ID with two values: the importer rejects the line (ValueError)
+
+
+def rejected_histories():
+    """an update that is REJECTED part-way (multi-valued ID, duplicate id) after auto-generated keys were drawn - the
+    caller catches the exception and carries on with the same handle"""
+    fill = [("r%d" % i, [], "region", 100 + i) for i in range(4)]
+    clash = ("a", [], "exon", 77)
+    same = ("a", [], "exon", 10)
+
+    def auto(i, ftype="exon"):
+        return (None, ["a"], ftype, i)
+    return [
+        [upd([auto(1), auto(2), MULTI]), upd([auto(3)]), upd([auto(4), auto(5, "mRNA")], "create_unique")],
+        [upd([auto(1), auto(2, "mRNA"), same], "error"), upd([auto(3), auto(4, "mRNA")])],
+        [upd([auto(1)] + fill, "error", fail_at=3, checklines=1), upd([auto(2)])],
+        [upd([auto(1), clash] + fill, "merge", fail_at=5), upd([auto(2)]), ["reopen"], upd([auto(3)])],
+        [upd([auto(1), clash, MULTI], "merge"), upd([auto(2), ("e", [], "exon", 6)]), ["reopen"], upd([auto(3)])],
+        [upd([auto(1), MULTI]), ["delete", ["exon_1", "exon_2"], False], upd([auto(2)])],
+        [upd([auto(1), MULTI]), upd([auto(2), MULTI], "replace"), upd([auto(3)])],
+        [upd([auto(1)]), ["reopen"], upd([auto(2), MULTI]), upd([auto(3)]), ["reopen"], upd([auto(4)])],
+    ]
+
+
+GTF_BASE = gen_db.gtf_lines([
+    dict(ftype="exon", gene="gA", transcript="tA", start=100, end=200, seqid="chr1", strand="+"),
+    dict(ftype="CDS", gene="gA", transcript="tA", start=120, end=180, seqid="chr1", strand="+"),
+    dict(ftype="exon", gene="gA", transcript="tA", start=300, end=400, seqid="chr1", strand="+"),
+    dict(ftype="exon", gene="gB", transcript="tB", start=1000, end=1100, seqid="chr1", strand="-")])
+# id_specs under which the INFERRED genes / transcripts of a GTF import get auto-generated keys (gene_1, transcript_1, ...)
+GTF_IDSPECS = [dbside.IdSpec("L", [("a", "ID")], form="str"), dbside.IdSpec("L", [("c", "none")], form="callable"),
+               dbside.IdSpec("D", table={"exon": [("a", "ID")]})]
+
+
+def gtf_histories():
+    """updates with id-less gene / transcript / exon lines on a GTF database whose inferred features hold gene_<n> /
+    transcript_<n>; the last one (used under id_spec="ID" only) also carries explicit ids"""
+    def g(s, ft="gene"):
+        return (None, [], ft, s)
+    return [
+        [upd([g(5000)]), ["reopen"], upd([g(6000), g(6100, "transcript"), g(6200, "exon")])],
+        [["reopen"], upd([g(5000, "transcript"), g(5100)]), upd([g(7000)], "create_unique")],
+        [upd([g(5000, "exon"), g(5100, "CDS")]), upd([g(5200), g(5300, "transcript")], "replace"), ["reopen"], upd([g(5400)])],
+        [upd([g(5000), ("x1", [], "gene", 5100), MULTI]), upd([g(5200)]), ["reopen"], upd([g(5300), ("x1", [], "exon", 5400)])],
+    ]
+
+
 def backup_scripts(r, n):
     """file-level scripts for World.step: writes with make_backup, a failing write, reads in between"""
     out = [
@@ -550,12 +766,17 @@ def run(ctx):
     import gffutils
     res = common.Result("C10")
     r = ctx.rng("c10")
-    res.rule = ("histories of 1-8 steps over update(0-3 features with/without ID and Parent values forming chains up to "
-                "depth 4; strategies error/warning/replace/create_unique), delete(ids), add_relation, reopen on file "
+    res.rule = ("histories of 1-8 steps over update(0-3 features, and batches of 12-15, with/without ID and Parent values "
+                "forming chains up to depth 4; strategies error/warning/replace/create_unique; the features given as a file, "
+                "a list, a generator, iter(list) or a map object), move (fetch, change start/end within and across bin "
+                "boundaries, update with replace), delete(ids), add_relation, reopen on file "
                 "databases (exhaustive to depth 2 over a 9-op alphabet + random deeper); the feature source of an update "
                 "failing at every position; make_backup. histories of 2-5 steps on ONE handle whose updates fail part-way "
                 "(source raising at every position before/behind the dialect peek, duplicate ids, merge_strategy='merge' "
-                "clashes that commit mid-import) followed by updates drawing auto ids, delete, reopen; file-level scripts "
+                "clashes that commit mid-import, a line rejected for its multi-valued ID) followed by updates drawing auto "
+                "ids, delete, reopen - on bases with and without stored counters (only explicit ids), on file and "
+                "':memory:' databases, and on GTF databases whose inferred genes/transcripts hold auto-generated keys "
+                "(id_spec 'ID' / callable / per-featuretype dict); file-level scripts "
                 "with make_backup through World.step. non-trivial = distinct history with >= 2 state-changing steps")
     cmds, exp, tags = [], [], []
     pool = ["a", "b", "c", "d", "e"]
@@ -575,13 +796,31 @@ def run(ctx):
         histories.append([x])
         for y in alphabet:
             histories.append([x, y])
+    # the features of an update as a list / generator / iter(list) / map object, fewer and more than checklines + 1 = 11
+    # of them (the dialect peek of a one-shot source must hand every item on); features fetched, moved and written back
+    rf = ctx.rng("c10-forms")
+    for form in UPDATE_FORMS[1:]:
+        for k, n in enumerate([0, 1, 10, 11, 12, 13, 15]):
+            first = ("update", big_update(rf, pool[:4], n, "n"), "error", form)
+            other = UPDATE_FORMS[1:][(UPDATE_FORMS.index(form) + k) % 4]
+            histories.append([first, ("reopen",) if k % 2 else ("delete", ["n0", "b"]),
+                              ("update", big_update(rf, pool[:4], rf.choice([2, 12, 14]), "m"), rf.choice(["error", "replace"]), other),
+                              ("update", rand_update(rf, pool), "create_unique", form)])
+    for k, ns in enumerate(MOVE_STARTS):
+        histories.append([("move", "abcd"[k % 4], ns, ns + [50, 2 ** 17, 0, 200000][k % 4]), ("reopen",),
+                          ("update", [(None, ["a"], "exon", 7)], "error", UPDATE_FORMS[k % 5]), rand_move(rf, ["a", "b", "exon_1"]),
+                          ("move", "abcd"[k % 4], 10, 60)])
     nrand = 60 if not ctx.thorough else 800
     for _ in range(nrand):
         h = []
         for _ in range(r.randrange(3, 9)):
             k = r.random()
             if k < 0.5:
-                h.append(("update", rand_update(r, pool), r.choice(["error", "warning", "replace", "create_unique"])))
+                feats = rand_update(r, pool) if r.random() < 0.85 else big_update(r, pool, r.randrange(12, 16), "x%d_" % len(h))
+                h.append(("update", feats, r.choice(["error", "warning", "replace", "create_unique"]),
+                          r.choice(UPDATE_FORMS)))
+            elif k < 0.58:
+                h.append(rand_move(r, pool + ["exon_1"]))
             elif k < 0.7:
                 h.append(("delete", r.sample(pool + ["exon_1", "exon_2", "zz"], r.choice([1, 1, 2]))))
             elif k < 0.85:
@@ -611,12 +850,34 @@ def run(ctx):
 
     # histories with updates that FAIL part-way: keys never recycle (oracle) + World.step with residue (model) -------
     scripts = []
-    for hi, hist in enumerate(faulty_histories(r, 25 if not ctx.thorough else 400)):
-        case = {"scenario": "faulty_history", "base": FAULTY_BASE, "input": hist, "config": cfg0.to_json()}
+    nfaulty = 25 if not ctx.thorough else 400
+    fh = faulty_histories(r, nfaulty)
+    fcases = [{"scenario": "faulty_history", "base": FAULTY_BASE, "input": hist, "config": cfg0.to_json()} for hist in fh]
+    # ... on a base whose features all have explicit ids (the counters are EMPTY when the first update starts), and the
+    # rejected updates on both bases; the same on ':memory:' databases (one shared connection: what a failed update
+    # wrote stays visible on the handle)
+    some = fh[: len(fh) - nfaulty] + fh[len(fh) - nfaulty:][:: 3]
+    fcases += [{"scenario": "faulty_history", "base": BASE_LINES, "input": hist, "config": cfg0.to_json()}
+               for hist in some + rejected_histories()]
+    fcases += [{"scenario": "faulty_history", "base": FAULTY_BASE, "input": hist, "config": cfg0.to_json()}
+               for hist in rejected_histories()]
+    for base in (BASE_LINES, FAULTY_BASE):
+        fcases += [{"scenario": "faulty_history", "base": base, "input": hist, "config": cfg0.to_json(), "dbfn": "memory"}
+                   for hist in rejected_histories() + fh[:7] + fh[len(fh) - nfaulty:][1:: 4]]
+    # GTF databases imported with inference on under an id_spec that leaves the inferred genes / transcripts with
+    # auto-generated keys, then updates with id-less gene / transcript lines (file and :memory:)
+    for ki, spec in enumerate(GTF_IDSPECS):
+        gcfg = dbside.Cfg(idspec=spec)
+        ucfg = dbside.Cfg(idspec=spec, disG=True, disT=True)
+        for hist in (gtf_histories() if ki == 0 else gtf_histories()[:3]):
+            for dbfn in ("file", "memory"):
+                fcases.append({"scenario": "faulty_history", "base": GTF_BASE, "input": hist, "config": gcfg.to_json(),
+                               "update_config": ucfg.to_json(), "fmt": "gtf", "dbfn": dbfn})
+    for hi, case in enumerate(fcases):
         if play_faulty(ctx, case, res, scripts) >= 2:
-            res.nontriv("faulty" + repr(hist))
+            res.nontriv("faulty" + repr((case["base"], case.get("dbfn"), case["config"]["idspec"], case["input"])))
         if hi == 0:
-            res.sample({"faulty_history": hist})
+            res.sample({"faulty_history": case["input"]})
 
     # make_backup at file level: World.step keeps the pre-operation file under '<path>.bak' ---------------------------
     for bi, steps in enumerate(backup_scripts(r, 6 if not ctx.thorough else 60)):
@@ -678,7 +939,13 @@ def run(ctx):
                        "after a FAILED update the reference continues from the content actually observed (once the failed "
                        "importer is garbage-collected); a key counts as handed out when it was in the database at some "
                        "point; reopening directly after a failed update that left rows behind is not judged (the counters "
-                       "of that update were never stored: see unjudged_observations)"]
+                       "of that update were never stored: see unjudged_observations)",
+                       "a feature fetched, moved and written back with merge_strategy='replace' is stored like the same "
+                       "feature line imported afresh (the reference for its row, bin included, is a fresh import on the "
+                       "same tree)",
+                       "':memory:' databases (one shared connection) are judged by the same key rules as file databases, "
+                       "except after a 'reopen' (FeatureDB(connection)) that directly follows a failed update which left "
+                       "uncommitted rows behind"]
     common.shrink_first_failure(res, lambda case: judge(ctx, case))
     return res
 
